@@ -400,7 +400,7 @@ func (p *proxyConn) handle() error {
 }
 
 func (p *proxyConn) writeErrorResponse(req *http.Request, err error) error {
-	res := maybeConnectErrorResponse(err)
+	res := maybeConnectErrorResponse(req, err)
 	var challenge []string
 	if res == nil {
 		res = p.errorResponse(req, err)
